@@ -1,10 +1,10 @@
 CONSTANTS
   T0S <- SimT0S
   TFS <- SimTFS
-  DTS <- SimDTS
+  DTS <- SimDTSAd
   TARGETS <- SimTARGETS
   ADAPTIVE = TRUE
-  ROOTS <- SimRoots
+  ROOTS <- SimRootsAd
   DENSE = TRUE
   MAXCALLS = 3
   MAXROWS = 14
@@ -12,6 +12,6 @@ CONSTANTS
   CBDTS <- Cb1
   Dev <- DevCode
 SPECIFICATION SimSpec
-CONSTRAINT SimConstraint
+CONSTRAINT SimConstraintAd
 INVARIANT EmitLog
 CHECK_DEADLOCK FALSE
